@@ -715,6 +715,34 @@ pub fn run_c03(cfg: &Cfg) -> Report {
         }
     });
     rep.stats.merge(s);
+    // deep nesting: valid encodings, truncations and a corruption at every level boundary
+    let s = parallel(cfg, 5, |t| {
+        let mut i = 0u64;
+        for kind in 0..7 {
+            for &depth in &DEEP_DEPTHS {
+                i += 1;
+                if !t.mine(i) || (t.cfg.tier == Tier::Tiny && depth > 129) {
+                    continue;
+                }
+                let (shape, val) = deep_case(kind, depth);
+                let text = shape.text();
+                let sfp = fp(text.as_bytes());
+                let valid = spec::encode(&val);
+                t.st.count("deep_nesting_cases");
+                c03_compare(t, &shape, &text, sfp, "deep_valid", &valid);
+                for k in [0usize, 1, valid.len() / 2, valid.len().saturating_sub(1)] {
+                    c03_compare(t, &shape, &text, sfp, "deep_prefix", &valid[..k.min(valid.len())]);
+                }
+                for _ in 0..8 {
+                    let mut m = valid.clone();
+                    let o = t.rng.below(m.len() as u64) as usize;
+                    m[o] = *t.rng.pick(&SUBST);
+                    c03_compare(t, &shape, &text, sfp, "deep_subst", &m);
+                }
+            }
+        }
+    });
+    rep.stats.merge(s);
     let s = parallel(cfg, 4, |t| {
         let mut i = 0u64;
         macro_rules! one {
@@ -750,6 +778,7 @@ pub fn run_c03(cfg: &Cfg) -> Report {
     rep.floor("input_repad", 10);
     rep.floor("strict_prefixes_checked", 10);
     rep.floor("exhaustive_16bit_strings", 60000);
+    rep.floor("deep_nesting_cases", 7);
     rep
 }
 
@@ -1287,6 +1316,9 @@ pub fn run_c04(cfg: &Cfg) -> Report {
         conc!(String, 1, true);
         conc!(Box<[u8]>, 1, true);
         conc!(Box<str>, 1, true);
+        conc!(crate::corpus::OwnedBytes, 1, true);
+        conc!(std::ffi::CString, 1, true);
+        conc!(Vec<crate::corpus::OwnedBytes>, 24, true);
         conc!(std::collections::VecDeque<u32>, 4, true);
         conc!(heapless::Vec<u8, 16>, 1, true);
         conc!(heapless::String<16>, 1, true);
